@@ -261,7 +261,9 @@ def visit(
                 result = visit_fn(node, key, parent, path, ancestors)
 
                 if result is BREAK or result is True:
-                    break
+                    # The traversal is abandoned, and with it the edits made so
+                    # far (the pending edits belong to an inner level of the tree).
+                    return root
 
                 if result is SKIP or result is False:
                     if not is_leaving:
